@@ -56,10 +56,9 @@ func againstReference(x []byte) (calls int, kfsep bool, err error) {
 		}
 		ref := refScanOnce(lines, from)
 		if ref.KFSep {
+			// With KF-SEP open the reference predicts the known behaviour (separator/warning
+			// swallowed), so the comparison goes on; the hit is only counted.
 			kfsep = true
-			if knownOpen("KF-SEP") {
-				return calls, kfsep, nil // behaviour from here on is the known finding's
-			}
 		}
 		in := bytes.NewReader(cur)
 		var w bytes.Buffer
